@@ -1,8 +1,10 @@
 package props
 
 import (
+	"bytes"
 	"fmt"
 	"net"
+	"sync"
 
 	"github.com/pion/stun/v3"
 	"github.com/pion/stun/v3/verifharness/core"
@@ -246,6 +248,16 @@ func c07Run(g c07Getter, wire []byte, extra, fill int, key []byte, r *gen.Rand, 
 
 func c07(c *core.Ctx) {
 	selfCheckOracles()
+	c.Section("concurrent-getters", c.N(40, 1500), func(i int64, _ *gen.Rand) {
+		c07Concurrent(c, i)
+		c.Distinct(uint64(i) | 5<<50)
+	})
+	if c.Config == "race" {
+		return
+	}
+	c.Section("receiver-and-message-reuse", c.N(3000, 100000), func(_ int64, r *gen.Rand) {
+		c07Reuse(c, r)
+	})
 	getters := c07Getters()
 	reps := int(c.N(10, 100))
 	total := int64(len(getters) * 41 * 3 * len(c07Caps))
@@ -403,5 +415,168 @@ func c07One(c *core.Ctx, r *gen.Rand, g c07Getter, length, posA, extraA int) {
 	}
 	if c.WantSample() && length == 2 && g.addr {
 		c.Sample(detail())
+	}
+}
+
+// ---- receivers and messages with history ----
+
+// c07Persistent lists getters as (receiver factory -> call) so that ONE receiver can be carried across calls.
+func c07Persistent() []struct {
+	name string
+	typ  uint16
+	mk   func() func(m *stun.Message) (string, error)
+} {
+	return []struct {
+		name string
+		typ  uint16
+		mk   func() func(m *stun.Message) (string, error)
+	}{
+		{"ErrorCodeAttribute.GetFrom", 0x0009, func() func(m *stun.Message) (string, error) {
+			a := new(stun.ErrorCodeAttribute)
+
+			return func(m *stun.Message) (string, error) {
+				err := a.GetFrom(m)
+				return fmt.Sprintf("%d:%x", a.Code, a.Reason), err
+			}
+		}},
+		{"Username.GetFrom", 0x0006, func() func(m *stun.Message) (string, error) {
+			a := new(stun.Username)
+
+			return func(m *stun.Message) (string, error) { err := a.GetFrom(m); return fmt.Sprintf("%x", []byte(*a)), err }
+		}},
+		{"Software.GetFrom", 0x8022, func() func(m *stun.Message) (string, error) {
+			a := new(stun.Software)
+
+			return func(m *stun.Message) (string, error) { err := a.GetFrom(m); return fmt.Sprintf("%x", []byte(*a)), err }
+		}},
+		{"UnknownAttributes.GetFrom", 0x000A, func() func(m *stun.Message) (string, error) {
+			a := new(stun.UnknownAttributes)
+
+			return func(m *stun.Message) (string, error) {
+				err := a.GetFrom(m)
+				return fmt.Sprint([]stun.AttrType(*a)), err
+			}
+		}},
+		{"XORMappedAddress.GetFrom", 0x0020, func() func(m *stun.Message) (string, error) {
+			a := new(stun.XORMappedAddress)
+
+			return func(m *stun.Message) (string, error) { err := a.GetFrom(m); return ipOut(a.IP, a.Port), err }
+		}},
+		{"MappedAddress.GetFrom", 0x0001, func() func(m *stun.Message) (string, error) {
+			a := new(stun.MappedAddress)
+
+			return func(m *stun.Message) (string, error) { err := a.GetFrom(m); return ipOut(a.IP, a.Port), err }
+		}},
+	}
+}
+
+// c07Reuse: one Message refilled with packet after packet, one receiver carried along. After every call the message
+// must be unchanged and the outcome must equal that of a fresh receiver on a fresh decode of the same packet.
+func c07Reuse(c *core.Ctx, r *gen.Rand) {
+	getters := c07Persistent()
+	g := getters[r.Intn(len(getters))]
+	call := g.mk()
+	m := new(stun.Message)
+	var trace []string
+	for step := 0; step < 5; step++ {
+		var before []ref.Attr
+		for k := r.Intn(3); k > 0; k-- {
+			before = append(before, c07Neighbour(r, r.Bool(), g.typ))
+		}
+		n := r.Intn(24)
+		val := r.Bytes(n)
+		if g.typ == 0x0020 || g.typ == 0x0001 {
+			if n >= 2 {
+				val[0], val[1] = 0, byte(1+r.Intn(2))
+			}
+		}
+		wire, _ := c07Wire(r, 0x0101, r.TID(), before, ref.Attr{Type: g.typ, Value: val}, []ref.Attr{c07Neighbour(r, false, 0)}, 2, false)
+		trace = append(trace, fmt.Sprintf("Write(%dB, value %dB at attr %d)", len(wire), n, len(before)))
+		if _, err := m.Write(wire); err != nil {
+			fatalHarness("C07 reuse: " + err.Error())
+		}
+		snap := viewOf(m)
+		var out string
+		var err error
+		p, stack := safely(func() { out, err = call(m) })
+		c.Eval(1)
+		detail := map[string]interface{}{"getter": g.name, "steps": trace, "packet_hex": core.Hex(wire)}
+		if p != nil {
+			reportPanic(c, g.name, p, stack, detail)
+
+			return
+		}
+		if d := snap.diff(viewOf(m)); d != "" {
+			detail["diff"] = d
+			c.Violate("side-effect", "side-effect-on-reuse:"+g.name, detail)
+
+			return
+		}
+		fresh := new(stun.Message)
+		_ = stun.Decode(wire, fresh)
+		fout, ferr := g.mk()(fresh)
+		if errClass(err) != errClass(ferr) || (err == nil && out != fout) {
+			detail["reused_receiver"] = fmt.Sprintf("%v / %s", err, out)
+			detail["fresh_receiver"] = fmt.Sprintf("%v / %s", ferr, fout)
+			c.Violate("non-local", "non-local-on-reuse:"+g.name, detail)
+
+			return
+		}
+	}
+	c.Count("reuse_chains", 1)
+}
+
+// c07Concurrent: getters running at once on different messages must each see only their own message.
+func c07Concurrent(c *core.Ctx, idx int64) {
+	const g = 8
+	var wg sync.WaitGroup
+	bad := make([]string, g)
+	for k := 0; k < g; k++ {
+		wg.Add(1)
+		rk := gen.Derive(c.Seed, uint64(idx), uint64(k), 0xC07C)
+		go func(k int) {
+			defer wg.Done()
+			for n := 0; n < 300 && bad[k] == ""; n++ {
+				tid := rk.TID()
+				ip := rk.Bytes(rk.PickInt([]int{4, 16}))
+				port := rk.Intn(65536)
+				wire := ref.Encode(0x0101, tid, []ref.Attr{
+					{Type: 0x0020, Value: ref.EncXORAddr(ip, port, tid)}, {Type: 0x0012, Value: ref.EncXORAddr(ip, port^1, tid)},
+					{Type: 0x0001, Value: ref.EncAddr(ip, port)}, {Type: 0x0009, Value: ref.EncErrorCode(400+n%100, []byte("reason"))},
+				})
+				m := new(stun.Message)
+				if err := stun.Decode(wire, m); err != nil {
+					bad[k] = err.Error()
+
+					return
+				}
+				var x, pa stun.XORMappedAddress
+				var ma stun.MappedAddress
+				var ec stun.ErrorCodeAttribute
+				if err := m.Parse(&x, &ma, &ec); err != nil {
+					bad[k] = err.Error()
+
+					return
+				}
+				if err := pa.GetFromAs(m, stun.AttrXORPeerAddress); err != nil {
+					bad[k] = err.Error()
+
+					return
+				}
+				if !bytes.Equal(x.IP, ip) || x.Port != port || !bytes.Equal(pa.IP, ip) || pa.Port != port^1 || !bytes.Equal(ma.IP, ip) || ma.Port != port || int(ec.Code) != 400+n%100 {
+					bad[k] = fmt.Sprintf("decoded %v / %v / %v / %d from a message carrying %x:%d", x, pa, ma, ec.Code, ip, port)
+				}
+			}
+		}(k)
+	}
+	wg.Wait()
+	c.Eval(g * 300)
+	c.Count("concurrent_getter_calls", g*300*4)
+	for _, b := range bad {
+		if b != "" {
+			c.Violate("concurrent-mismatch", "concurrent-mismatch", map[string]interface{}{"goroutines": g, "problem": b})
+
+			return
+		}
 	}
 }
